@@ -111,6 +111,9 @@ type env struct {
 	wFill    int  // filler closures queued
 	wChain   int  // chain closures queued (start / invokeCallback), the blocked starter included
 	wBlocked bool // one chain starter is blocked in Post on the full channel
+	// task lists carved as adjacent windows out of one shared backing array (`chain ... mem=arena`): arena[off:off+n]
+	// has spare capacity that reaches into the following chains' tasks
+	arena []waterfall.Task
 
 	// kind=m: several anonymous run services alive at once
 	svcs map[int]*msvc
@@ -438,7 +441,7 @@ func parseTasks(v string) ([]taskSpec, bool) {
 		return out, true
 	}
 	for _, s := range strings.Split(v, ",") {
-		if len(s) < 4 || !strings.ContainsRune("sglntvpq", rune(s[0])) || (s[1] != '0' && s[1] != '1') || !strings.ContainsRune("arzum", rune(s[2])) {
+		if len(s) < 4 || !strings.ContainsRune("sglntvpqx", rune(s[0])) || (s[1] != '0' && s[1] != '1') || !strings.ContainsRune("arzum", rune(s[2])) {
 			return nil, false
 		}
 		n, err := strconv.Atoi(s[3:])
@@ -490,6 +493,9 @@ func (e *env) buildTasks(id int, specs []taskSpec) ([]waterfall.Task, waterfall.
 	tasks := make([]waterfall.Task, len(specs))
 	for i := range specs {
 		i, sp := i, specs[i]
+		if sp.mode == 'x' {
+			continue // an unset step of a conditionally assembled chain: the entry stays nil
+		}
 		tasks[i] = func(cb waterfall.Callback, args ...interface{}) {
 			if cb == nil {
 				// the task was handed no usable callback: it cannot complete
@@ -702,6 +708,15 @@ func exec(op string) string {
 			}
 		}
 		tasks, final := e.buildTasks(id, specs)
+		if mem, _ := hx.KV(ws, "mem"); mem == "arena" {
+			// the chain's task list is a window of a larger shared array: the next chain's tasks follow directly
+			if e.arena == nil {
+				e.arena = make([]waterfall.Task, 0, 4096)
+			}
+			off := len(e.arena)
+			e.arena = append(e.arena, tasks...)
+			tasks = e.arena[off : off+len(tasks)]
+		}
 		start := func() string {
 			return hx.Guard(func() string {
 				if via == "builder" {
@@ -1350,7 +1365,7 @@ func (g *gen) scheCase() {
 	}
 }
 
-var modes = []byte("sssgggllltvnpq")
+var modes = []byte("sssgggllltvnpqx")
 
 func (g *gen) taskSpec(mode byte, err bool) string {
 	R := g.h.R
@@ -1392,6 +1407,10 @@ func (g *gen) wfCase() {
 		via := "sche"
 		if R.Intn(3) == 0 {
 			via = "builder"
+		}
+		if R.Intn(3) == 0 {
+			via += " mem=arena"
+			h.Count("w.mem.arena")
 		}
 		from := []string{"main", "go", "go", "cons"}[R.Intn(4)]
 		parkedHere := false
@@ -1534,6 +1553,55 @@ func (g *gen) sweep() {
 			g.h.Count("w.sweep.parked")
 		}
 	}
+	// unset (nil) steps at every position of chains of length 1..4 (the call panics inside the scheduler's recover: the
+	// chain stops there, nothing else runs), sync / goroutine / later predecessors, Sche and Builder
+	for _, cons := range []string{"h", "r"} {
+		g.run("reset kind=w cons=" + cons)
+		id, npend := 0, 0
+		for _, m := range []byte("sgl") {
+			for n := 1; n <= 4; n++ {
+				for nilPos := 0; nilPos < n; nilPos++ {
+					id++
+					var specs []string
+					for i := 0; i < n; i++ {
+						if i == nilPos {
+							specs = append(specs, fmt.Sprintf("x0a%d", 10*id+i))
+						} else {
+							specs = append(specs, fmt.Sprintf("%c0a%d", m, 10*id+i))
+						}
+					}
+					g.h.Count("w.sweep.unset-step")
+					g.run(fmt.Sprintf("chain id=%d via=%s tasks=%s", id, []string{"sche", "builder"}[id%2], strings.Join(specs, ",")))
+					if m == 'l' {
+						for i := 0; i < nilPos; i++ {
+							g.run(fmt.Sprintf("fire k=%d via=%s", npend, []string{"go", "main", "timer", "post"}[(id+i)%4]))
+							npend++
+						}
+					}
+				}
+			}
+		}
+	}
+	// task lists that are adjacent windows of one backing array (spare capacity reaching into the next chain's tasks),
+	// started back to back with the consumer idle and parked, lengths 0..5
+	for _, cons := range []string{"h", "r"} {
+		g.run("reset kind=w cons=" + cons)
+		for id := 1; id <= 6; id++ {
+			var specs []string
+			for i := 0; i < id-1; i++ {
+				specs = append(specs, fmt.Sprintf("%c0a%d", []byte("sgs")[(id+i)%3], 10*id+i))
+			}
+			g.run(fmt.Sprintf("chain id=%d via=sche mem=arena tasks=%s", id, strings.Join(specs, ",")))
+		}
+		g.run("park")
+		g.run("chain id=7 via=sche mem=arena from=go tasks=s0a71,s0a72")
+		g.run("chain id=8 via=sche mem=arena from=go tasks=s0a81,l0a82,s0a83")
+		g.run("chain id=9 via=sche mem=arena from=main tasks=g0a91")
+		g.run("unpark")
+		g.run("chain id=10 via=sche mem=arena tasks=s0a101,s1a102,s0a103")
+		g.run("fire k=0 via=go")
+		g.h.Count("w.sweep.arena")
+	}
 	// two anonymous run services side by side, one stopped, a third created afterwards; a panicking closure on each
 	g.run("reset kind=m")
 	g.run("svc id=1")
@@ -1654,7 +1722,7 @@ func postsPanic(op string) bool {
 	case "chain":
 		v, _ := hx.KV(ws, "tasks")
 		for _, t := range strings.Split(v, ",") {
-			if len(t) > 0 && (t[0] == 'p' || t[0] == 'q') {
+			if len(t) > 0 && (t[0] == 'p' || t[0] == 'q' || t[0] == 'x') {
 				return true
 			}
 		}
@@ -1763,7 +1831,7 @@ func TestRun(t *testing.T) {
 // two posters racing for the last slots.
 func TestExhaustive(t *testing.T) {
 	bubble(t, func(h *hx.T, run func(op string) string) {
-		ms := []byte("sgltn")
+		ms := []byte("sgltnx")
 		var all [][]string
 		var rec func(prefix []string, n int)
 		rec = func(prefix []string, n int) {
@@ -1796,7 +1864,7 @@ func TestExhaustive(t *testing.T) {
 				run(fmt.Sprintf("fire k=%d via=go", base)) // the first later-task completes a second time
 			}
 		}
-		h.Stats["exhaustive.wf.len<=3.modes=sgltn.err=01"] = len(all)
+		h.Stats["exhaustive.wf.len<=3.modes=sgltnx.err=01"] = len(all)
 		qs := sche.QueueSize
 		cnt := 0
 		for _, cons := range []string{"h", "r"} {
